@@ -553,6 +553,8 @@ def odometer_next(ctx, F):
                     oke = v == ("at", ("at", SETS, ("i",)), ("at", POS, ("i",))) and src[1] <= {NSETS, ("len", POS), ("len", SETS)}
     ctx.check(oke, "next:emits-current-position", "the emitted combination is not sets[i][pos[i]] for every i: %s" % (short(got[0])[:120] if got else None), nb.where(), detail="sets[i][pos[i]]")
     # (3) the advance loop, in `next` or in a helper extracted from it
+    fin_writes = [1 for bb, blk in enumerate(nb.blocks) if not blk["cleanup"] for pos_, st_ in enumerate(blk["stmts"]) if st_["k"] == "assign" and st_["place"]["p"] and st_["place"]["p"][0]["k"] == "deref" and _based_on(clean(ntm.place(st_["place"], bb, pos_)), FINAL)]
+    _FINAL_LEN_OK["ok"] = _final_len_invariant(F) and not fin_writes
     place = None
     with no_inline():
         cands = [(nb, None)]
@@ -580,6 +582,46 @@ def odometer_next(ctx, F):
         _advance_rows(ctx, F, nb, *place)
 
 
+NFINAL = ("call", "std::vec::Vec::<T, A>::len", (FINAL,))
+_FINAL_LEN_OK = {}
+
+
+def _based_on(place, root):
+    """the written place lies inside `root` (root itself, an element or a field of it)"""
+    t = place
+    while True:
+        if t == root:
+            return True
+        if t[0] in ("at", "field", "index", "deref") and len(t) > 1 and isinstance(t[1], tuple):
+            t = t[1]
+        else:
+            return False
+
+
+def _is_nsets(t):
+    """the number of sets: sets.len(), or final_pos.len() when `from` builds final_pos with one entry per set (and nothing else
+    writes it: the field is private and `next` is checked not to store into it)"""
+    if t is None:
+        return False
+    t = clean(t)
+    t = rewrite(t, lambda y: ("call", "std::vec::Vec::<T, A>::len", y[2]) if y[0] == "call" and len(y[2]) == 1 and re.search(r"(slice::<impl \[T\]>|Vec::<T, A>)::len$", y[1]) else None)
+    return t == NSETS or (t == NFINAL and _FINAL_LEN_OK.get("ok", False))
+
+
+def _final_len_invariant(F):
+    """final_pos has exactly one entry per set: built position by position from `sets` in From::from"""
+    fp = "<%s<'a, T> as std::convert::From<&'a std::vec::Vec<std::vec::Vec<T>>>>::from" % MS
+    b = F.bodies.get(fp)
+    if b is None:
+        return False
+    rt = nosite(deep_strip(Terms(b).return_term()))
+    if not (rt[0] == "agg" and rt[1] == MS):
+        return False
+    fpos = dict(rt[3]).get("final_pos")
+    pf = positional_form(F, fpos) if fpos is not None else None
+    return pf is not None and pf[1] == {("len", ("arg", 1))}
+
+
 def _range_index(rows, sub):
     """the loop variable if the loop runs over 0..sets.len(): the term of the range's next() call"""
     found = set()
@@ -593,7 +635,7 @@ def _range_index(rows, sub):
         if not (d[0] == "discr" and d[1][0] == "call" and re.search(r"::next$", d[1][1])):
             return None
         rng = [x for x in subterms(d[1]) if x[0] == "agg" and x[1].endswith("ops::Range")]
-        if not (rng and dict(rng[0][3]).get("start") == ("const", "usize", 0) and dict(rng[0][3]).get("end") == NSETS) or calls_in(d[1], "take") or calls_in(d[1], "rev") or calls_in(d[1], "skip"):
+        if not (rng and dict(rng[0][3]).get("start") == ("const", "usize", 0) and _is_nsets(dict(rng[0][3]).get("end"))) or calls_in(d[1], "take") or calls_in(d[1], "rev") or calls_in(d[1], "skip"):
             return None
         found.add(d[1])
     return list(found)[0] if len(found) == 1 else None
@@ -604,6 +646,9 @@ def _advance_rows(ctx, F, nb, body, via, head, rows, sub, idx_call):
     IDX = idx_call
     AT_POS, AT_FIN = ("at", POS, IDX), ("at", FINAL, IDX)
     A = Arith(F, {IDX: "i", NSETS: "n"})
+    if _FINAL_LEN_OK.get("ok"):
+        A.symbols[NFINAL] = "n"
+        A.symbols[("call", "std::slice::<impl [T]>::len", (FINAL,))] = "n"
     last_form = Ratio(Poly.sym("i")) - Ratio(Poly.sym("n")) + Ratio(Poly.const(1))
 
     def classify(r):
@@ -660,6 +705,25 @@ def _advance_rows(ctx, F, nb, body, via, head, rows, sub, idx_call):
                 zero.append(("prefix", IDX))
                 continue
             other.append((short(pt)[:60], short(v)[:60]))
+        # `pos[..=idx].fill(0)` / `pos[..idx + 1].fill(0)`
+        for _bb, cv in r.calls:
+            cv = C(cv)
+            if cv[0] == "call" and re.search(r"slice::<impl \[T\]>::fill$", cv[1]) and len(cv[2]) == 2 and contains(cv[2][0], lambda q: q == POS):
+                tgt = cv[2][0]
+                okp = False
+                if cv[2][1] == ("const", "usize", 0) and tgt[0] == "at" and tgt[1] == POS and tgt[2][0] == "agg":
+                    flds = dict(tgt[2][3])
+                    if tgt[2][1].endswith("RangeToInclusive") and "start" not in flds:
+                        okp = flds.get("end") == IDX
+                    elif tgt[2][1].endswith("ops::RangeTo"):
+                        try:
+                            okp = A.ev(flds.get("end")).equals(Ratio(Poly.sym("i")) + Ratio(Poly.const(1)))
+                        except Exception:
+                            okp = False
+                if okp:
+                    zero.append(("prefix", IDX))
+                else:
+                    other.append(("fill", short(cv)[:80]))
         return inc, zero, other, state
 
     working = set()  # the vector that is advanced in place (raw term, with its mutation marker)
@@ -687,7 +751,7 @@ def _advance_rows(ctx, F, nb, body, via, head, rows, sub, idx_call):
             # range exhausted: nothing may change; the flag keeps its initial value
             if inc or zero or not leaves:
                 bad_rows.append(("the position changes after the range is exhausted", where))
-            flag_rows.append((r, "initial", state))
+            flag_rows.append((r, "exhausted", state))
             continue
         if lt is True:
             if not (inc == [IDX] and not zero and leaves):
@@ -731,8 +795,11 @@ def _advance_rows(ctx, F, nb, body, via, head, rows, sub, idx_call):
                 if not is_none:
                     okz, why = False, "a finished iterator keeps a position"
             else:
-                # initial flag: None exactly on the paths where `sets` was found empty
-                if len(zero_conds) != 1 or zero_conds[0] != is_none or (not is_none and clean(st_) != _some(POS)):
+                # initial flag: None exactly on the paths where `sets` was found empty.  Without such a test on the path: a turn
+                # that incremented a position had a set to work on (Some), an exhausted range without leaving means no sets (None)
+                if not zero_conds and is_none == (flag == "exhausted") and (is_none or clean(st_) == _some(POS)):
+                    pass
+                elif len(zero_conds) != 1 or zero_conds[0] != is_none or (not is_none and clean(st_) != _some(POS)):
                     okz, why = False, "the stored state does not follow `no sets => finished`: tests=%s stores None=%s" % (zero_conds, is_none)
                 elif not is_none and not (len(working) == 1 and st_[0] == "agg" and st_[3] and st_[3][0][1] in working):
                     okz, why = False, "the vector stored as the new state is not the one that was advanced"
